@@ -361,10 +361,13 @@ def linearise(tr):
                 s = part.strip()
                 if not s:
                     continue
-                if s.endswith(':') and ' ' not in s:
-                    out.append(('label', s[:-1]))
-                else:
-                    out.append(('ins', s))
+                m = re.match(r'^([A-Za-z0-9_.$]+|\{[^}]*\}):\s*(.*)$', s)
+                if m and not s.startswith('%'):
+                    out.append(('label', m.group(1)))
+                    s = m.group(2).strip()
+                    if not s:
+                        continue
+                out.append(('ins', s))
         elif item[0] in ('expr', 'addr', 'stmt'):
             out.append(('pseudo', item[0], item[1]))
     return out
